@@ -282,9 +282,11 @@ class Parse(Family):
     thorough_n = 1500000
 
     def gen(self, rng: random.Random, n: int):
-        for u in SEEDS:
+        cnt = 0
+        for u in self.share(SEEDS):  # every process runs its part of the fixed list (harness/README "Sharding pitfall")
+            cnt += 1
             yield {"u": u}
-        for i in range(max(0, n - len(SEEDS))):
+        for i in range(max(0, n - cnt)):
             u = gen_url(rng)
             m = rng.random()
             if m < 0.25:
@@ -418,16 +420,18 @@ class Wire(Family):
             "gemini://localhost/%2F%2e%2e/;p?x?y", "gemini://localhost:7/a//b", "gemini://[fe80::1%25lo]:70/z", "gemini://[v1.lo:x]/", "gemini://[v1.a[b]/", "gemini://exämple.com/é?ü",
             "gemini://@localhost/x", "gemini://localhost/ x", "gemini://localhost/a\tb", " gemini://localhost/",
         ]
-        for u in fixed:
-            yield {"u": u}
         # lengths around the limit: the client measures the caller's string, the server the normalised one
         for total in (1020, 1021, 1022, 1023):
             for shape in ("gemini://localhost?", "gemini://localhost/?", "gemini://localhost/", "gemini://LOCALHOST:1965/", "gemini://localhost"):
                 pad = total - len(shape)
-                yield {"u": shape + "q" * pad}
-        yield {"u": "gemini://localhost/" + "é" * 501}
-        yield {"u": "gemini://localhost/" + "é" * 502}
-        for _ in range(max(0, n - len(fixed) - 22)):
+                fixed.append(shape + "q" * pad)
+        fixed.append("gemini://localhost/" + "é" * 501)
+        fixed.append("gemini://localhost/" + "é" * 502)
+        cnt = 0
+        for u in self.share(fixed):
+            cnt += 1
+            yield {"u": u}
+        for _ in range(max(0, n - cnt)):
             host = rng.choice(WIRE_HOSTS)
             u = rng.choice(["gemini", "gemini", "Gemini", "GEMINI"]) + "://" + host + gen_port(rng) + gen_path(rng) + gen_query(rng)
             if rng.random() < 0.1:
